@@ -23,6 +23,7 @@ mod c14;
 mod c20;
 mod c17;
 mod c09;
+mod c19;
 
 use common::Tier;
 
@@ -56,6 +57,8 @@ fn main() {
         "C20" => c20::run(tier),
         "C17" => c17::run(tier),
         "C09" => c09::run(tier),
+        "C19" => c19::run(tier),
+        "C19-child" => c19::child_main(),
         "C09-text" => c09::text_child(args[2].parse().unwrap(), args[3].parse().unwrap()),
         "C09-probe" => c09::probe_child(&args[2], args[3].parse().unwrap()),
         "C09-load" => c09::load_child(&args[2]),
